@@ -283,6 +283,15 @@ def closer_checked(R, ctx):
     for label, content, want in (("single-line", "note ]] here", "--note ]] here"), ("empty", "", "")):
         out, why = run_(content)
         R.ob(rid, "text|%s" % label, out == want, ctx.where(fn), "%r -> %r (expected %r) %s" % (content, out, want, why[:1] if out != want else ""))
+    # a one-line text must stay a LINE comment whatever it starts with (Lua manual 2.1: `--[`, n `=`, `[` opens a long comment)
+    from ..props.c04 import _is_line_comment
+    wrong = []
+    for content in ("[[ generated ]] do not edit [[", "[[x", "[=[x", "[==[ x", "[x", "[=x[", "x [[", "]] x", "=[[x"):
+        out, why = run_(content)
+        if not isinstance(out, str) or not out.startswith("--") or "\n" in out or not _is_line_comment(out) or content not in out:
+            wrong.append((content, out if isinstance(out, str) else why[:2]))
+    R.ob(rid, "text|one-line-text-stays-a-line-comment", not wrong, ctx.where(fn), "9 one-line texts, all written as line comments" if not wrong else
+         "the one-line text %r is written as %r: it opens a long comment that nothing closes, the code after it is swallowed" % wrong[0])
 
 
 def line_comment_classifier(R, ctx):
